@@ -18,6 +18,7 @@ Byte strings are hex (`-` = empty). Requests (server must be "up" for the operat
                                            paths: `tindex.dat`, `tindex.bak`, `cindex.dat`, `pipes.dat`, `pipeinfo:<name>`
 * `range <src> <lo> <hi>`                  → `vis=<ts,…|.> spec=<ts,…|.> stale=<0|1>`
 * `parts` · `pipes` (→ `name|tags|flt,…`) · `ppos <name>` (→ `src:cid:idx,…` sorted) · `fname <name>` (→ hex of `pipeFileName`)
+* `steps.stop`                             → the step list of a graceful shutdown's saves · `savepipes` — run `savePipes` once more
 * `steps.part <tags> <src>`                → the step list of that save, e.g. `rename:tindex.dat:tindex.bak truncate:tindex.dat append:tindex.dat`
 -/
 open Go Driver Logrange.Persist
@@ -27,11 +28,12 @@ structure DS where
   pre : Mem
   up : Bool
   cutIn : Bool
+  everColl : Bool   -- a pipe whose position file is the registry file exists or existed in this history (F33's class)
   slots : List (String × Option Bytes)
 
 def K : Codecs := stdCodecs
 def emptyMem : Mem := ⟨[], [], []⟩
-def DS.init : DS := ⟨⟨emptyMem, Disk.fresh⟩, emptyMem, false, false, []⟩
+def DS.init : DS := ⟨⟨emptyMem, Disk.fresh⟩, emptyMem, false, false, false, []⟩
 
 def insSorted (x : Bytes) : List Bytes → List Bytes
   | [] => [x]
@@ -77,7 +79,7 @@ def mkCut (steps : List Step) (k : Nat) (cls : String) : Cut :=
   | _ => ⟨k, 0⟩
 
 def pathName : Path → String
-  | .tindexDat => "tindex.dat" | .tindexBak => "tindex.bak" | .tindexTmp => "tindex.tmp" | .cindexDat => "cindex.dat"
+  | .tindexDat => "tindex.dat" | .tindexBak => "tindex.bak" | .tindexTmp => "tindex.dat.tmp" | .cindexDat => "cindex.dat"
   | .pipesDir f => "pipes/" ++ hex f
 
 def stepName : Step → String
@@ -85,9 +87,10 @@ def stepName : Step → String
   | .truncate p => s!"truncate:{pathName p}"
   | .append p _ => s!"append:{pathName p}"
   | .remove p => s!"remove:{pathName p}"
+  | .link a b => s!"link:{pathName a}:{pathName b}"
 
 def clsOf (d : DS) : String :=
-  s!"cls=collision:{b2s (nameCollision d.pre.pipes)},defslost:{b2s (pipeDefsNotOnDisk K d.pre d.srv.disk.files)},cut:{b2s d.cutIn}"
+  s!"cls=collision:{b2s (nameCollision d.pre.pipes || d.everColl)},defslost:{b2s (pipeDefsNotOnDisk K d.pre d.srv.disk.files)},cut:{b2s d.cutIn}"
 
 def withFiles (d : DS) (f : Files) : DS := { d with srv := { d.srv with disk := { d.srv.disk with files := f } } }
 
@@ -111,7 +114,13 @@ def dstep (d : DS) (toks : List String) : DS × String :=
   | "write" :: src :: pieces => op (.write (unhex src) (parsePieces pieces))
   | ["dropchunks", src, n] => op (.dropChunks (unhex src) n.toNat!)
   | ["droppart", src] => op (.dropPartition (unhex src))
-  | ["mkpipe", n, t, f] => op (.createPipe ⟨unhex n, unhex t, unhex f⟩)
+  | ["mkpipe", n, t, f] =>
+    let (d', a) := op (.createPipe ⟨unhex n, unhex t, unhex f⟩)
+    ({ d' with everColl := d'.everColl || decide (pipeInfoPath (unhex n) = pipesDat) }, a)
+  | ["savepipes"] =>
+    -- `savePipes` once more (the harness saw the registry file written after the removal of a colliding position file)
+    if d.up then (withFiles d (runSteps s.disk.files (savePipesSteps K.pipes (s.mem.pipes.map (·.cfg)))), "ok") else (d, "down")
+  | ["steps.stop"] => (d, " ".intercalate ((shutdownSteps K s.mem).map stepName))
   | ["rmpipe", n] => op (.deletePipe (unhex n))
   | "pipesave" :: n :: pm => op (.savePipeInfo (unhex n) (parsePosMap' pm))
   | ["stop"] =>
